@@ -373,6 +373,18 @@ def run_impl(binary, cases, workdir, name, timeout_per_run=900):
                 answers[i] = lines[k:k + n]; k += n
             else:
                 # the process died inside this case
+                if rc == 97 and not os.environ.get('HARNESS_REQUEST_LIMIT_S'):
+                    # the per-request watchdog fired: under load a legitimate request can be slow; run the case again alone with
+                    # a six-fold limit before calling it non-termination
+                    sp1 = os.path.join(workdir, '%s.r%d.retry%d.script' % (name, rounds, i)); write_script(sp1, [cases[i]])
+                    try:
+                        with open(sp1) as fin1:
+                            r1 = subprocess.run([binary], stdin=fin1, capture_output=True, text=True, timeout=timeout_per_run, env=dict(os.environ, HARNESS_REQUEST_LIMIT_S='120'))
+                        l1 = r1.stdout.split('\n')
+                        if l1 and l1[-1] == '': l1.pop()
+                        if r1.returncode == 0 and len(l1) == n:
+                            answers[i] = l1; nxt = todo[pos + 1:]; break
+                    except Exception: pass
                 got = lines[k:]
                 answers[i] = got + ['crash(%s)' % rc] + ['-'] * (n - len(got) - 1)
                 crashes.append((i, rc))
